@@ -150,6 +150,18 @@ class HAny(Hooks, AnyNode):
     pass
 
 
+class HNodeSemi(Hooks, Node):
+    """Node with another class-level separator."""
+
+    separator = ";"
+
+
+class HMixinSep(Hooks, NodeMixin):
+    """User class with a multi-character separator and its own path attribute (`label`)."""
+
+    separator = "::"
+
+
 class HSym(Hooks, SymlinkNode):
     pass
 
